@@ -41,7 +41,7 @@ EXTENDS Integers, Sequences, FiniteSets, TLC
 CONSTANTS
   Mode,            \* "tcp" | "pc"  (pc = generic net.PacketConn and UDP)
   NStart,          \* starter processes 1..NStart
-  LsnOf,           \* tcp: sequence, LsnOf[p] = listener object starter p serves
+  NLsn,            \* tcp: listener objects 1..NLsn the harness may assign to srv.Listener, in order
   NShut,           \* shutdown callers 1..NShut
   NConns,          \* tcp: client connections 1..NConns
   MaxReq,          \* tcp: requests per connection
@@ -57,7 +57,7 @@ P == 1..NStart
 H == 1..NShut
 C == IF Mode = "tcp" THEN 1..NConns ELSE {}
 K == IF Mode = "pc" THEN 1..NPkts ELSE {}
-Lsn == IF Mode = "tcp" THEN { LsnOf[p] : p \in P } ELSE {}
+Lsn == IF Mode = "tcp" THEN 1..NLsn ELSE {}
 
 VARIABLES
   \* ---- fields of Server
@@ -66,13 +66,13 @@ VARIABLES
   lsnOpen, pend,          \* tcp listeners: open?, accept queue
   pcOpen, pcDL, pin,      \* the packet conn: open?, read deadline, packets waiting
   \* ---- starter / serve loop p
-  spc, sgen, sres, wg, scur, serr,
+  spc, sgen, sres, wg, scur, serr, slsn,
   \* ---- connection worker c
   wpc, wown, dl, copen, hrep, hclosed,
   \* ---- packet worker k
   kpc, kown, nread,
   \* ---- shutdown caller h
-  shpc, shres, shgen, capt, kick,
+  shpc, shres, shgen, capt, kick, shseen,
   \* ---- clients
   cst, csent, inbox, psent,
   \* ---- history
@@ -80,10 +80,10 @@ VARIABLES
 
 fields  == <<started, lock, gen, closed, conns, lsnField>>
 transp  == <<lsnOpen, pend, pcOpen, pcDL, pin>>
-svars   == <<spc, sgen, sres, wg, scur, serr>>
+svars   == <<spc, sgen, sres, wg, scur, serr, slsn>>
 wvars   == <<wpc, wown, dl, copen, hrep, hclosed>>
 kvars   == <<kpc, kown, nread>>
-shvars  == <<shpc, shres, shgen, capt, kick>>
+shvars  == <<shpc, shres, shgen, capt, kick, shseen>>
 cvars   == <<cst, csent, inbox, psent>>
 hist    == <<replyLost, crashed>>
 vars    == <<fields, transp, svars, wvars, kvars, shvars, cvars, hist, act>>
@@ -95,16 +95,17 @@ Free  == lock = NoLock
 Min(S) == CHOOSE x \in S : \A y \in S : x <= y
 
 Init ==
-  /\ started = FALSE /\ lock = NoLock /\ gen = 0 /\ closed = {} /\ conns = {} /\ lsnField = 0
+  /\ started = FALSE /\ lock = NoLock /\ gen = 0 /\ closed = {} /\ conns = {}
+  /\ lsnField = IF Mode = "tcp" THEN 1 ELSE 0      \* the harness assigned listener 1 before the first call
   /\ lsnOpen = [l \in Lsn |-> TRUE] /\ pend = [l \in Lsn |-> {}]
   /\ pcOpen = TRUE /\ pcDL = "none" /\ pin = 0
   /\ spc = [p \in P |-> "idle"] /\ sgen = [p \in P |-> 0] /\ sres = [p \in P |-> "-"]
-  /\ wg = [p \in P |-> 0] /\ scur = [p \in P |-> 0] /\ serr = [p \in P |-> "-"]
+  /\ wg = [p \in P |-> 0] /\ scur = [p \in P |-> 0] /\ serr = [p \in P |-> "-"] /\ slsn = [p \in P |-> 0]
   /\ wpc = [c \in C |-> "none"] /\ wown = [c \in C |-> 0] /\ dl = [c \in C |-> "none"]
   /\ copen = [c \in C |-> TRUE] /\ hrep = [c \in C |-> FALSE] /\ hclosed = [c \in C |-> FALSE]
   /\ kpc = [k \in K |-> "none"] /\ kown = [k \in K |-> 0] /\ nread = 0
   /\ shpc = [h \in H |-> "idle"] /\ shres = [h \in H |-> "-"] /\ shgen = [h \in H |-> 0]
-  /\ capt = [h \in H |-> 0] /\ kick = [h \in H |-> {}]
+  /\ capt = [h \in H |-> 0] /\ kick = [h \in H |-> {}] /\ shseen = [h \in H |-> {}]
   /\ cst = [c \in C |-> "new"] /\ csent = [c \in C |-> 0] /\ inbox = [c \in C |-> 0] /\ psent = 0
   /\ replyLost = FALSE /\ crashed = "-" /\ act = <<>>
 
@@ -113,13 +114,11 @@ Init ==
 
 StLock(p) ==                      \* srv.lock.Lock(); defer unlock()
   /\ spc[p] = "idle" /\ Free
-  /\ (Mode = "tcp" /\ LsnOf[p] # lsnField /\ lsnField # 0 => ~started)          \* DEV3
   /\ (SeqRestart => /\ \A q \in P : spc[q] \in {"idle", "returned"}
                     /\ \A h \in H : shpc[h] \in {"idle", "returned"})
   /\ lock' = <<"s", p>>
   /\ spc' = [spc EXCEPT ![p] = "locked"]
-  /\ lsnField' = IF Mode = "tcp" THEN LsnOf[p] ELSE lsnField
-  /\ UNCHANGED <<started, gen, closed, conns, transp, sgen, sres, wg, scur, serr, wvars, kvars, shvars, cvars, hist>>
+  /\ UNCHANGED <<started, gen, closed, conns, lsnField, transp, sgen, sres, wg, scur, serr, slsn, wvars, kvars, shvars, cvars, hist>>
   /\ L(<<"StLock", p>>)
 
 StBody(p) ==                      \* if srv.started {return err}; srv.init(); srv.started = true; unlock()
@@ -127,13 +126,14 @@ StBody(p) ==                      \* if srv.started {return err}; srv.init(); sr
   /\ IF started /\ Bug # "no_started_check"
      THEN /\ spc' = [spc EXCEPT ![p] = "err"]
           /\ sres' = [sres EXCEPT ![p] = "already"]
-          /\ UNCHANGED <<started, lock, gen, conns, sgen, wg>>
+          /\ UNCHANGED <<started, lock, gen, conns, sgen, wg, slsn>>
           /\ L(<<"StRefused", p>>)
      ELSE /\ started' = TRUE
           /\ gen' = gen + 1                       \* init(): a new srv.shutdown ...
           /\ conns' = {}                          \* ... and a new srv.conns
           /\ sgen' = [sgen EXCEPT ![p] = gen + 1]
           /\ wg' = [wg EXCEPT ![p] = 0]
+          /\ slsn' = [slsn EXCEPT ![p] = lsnField]     \* serveTCP(srv.Listener)
           /\ lock' = NoLock
           /\ spc' = [spc EXCEPT ![p] = "top"]
           /\ UNCHANGED sres
@@ -144,7 +144,7 @@ StErrReturn(p) ==                 \* the deferred unlock() on the error path
   /\ spc[p] = "err"
   /\ lock' = NoLock
   /\ spc' = [spc EXCEPT ![p] = "returned"]
-  /\ UNCHANGED <<started, gen, closed, conns, lsnField, transp, sgen, sres, wg, scur, serr, wvars, kvars, shvars, cvars, hist>>
+  /\ UNCHANGED <<started, gen, closed, conns, lsnField, transp, sgen, sres, wg, scur, serr, slsn, wvars, kvars, shvars, cvars, hist>>
   /\ L(<<"StErrReturn", p>>)
 
 -----------------------------------------------------------------------------
@@ -155,25 +155,25 @@ SCheck(p) ==                      \* for srv.isStarted()
   /\ IF started
      THEN spc' = [spc EXCEPT ![p] = IF Mode = "tcp" THEN "accept" ELSE "rdl"] /\ UNCHANGED sres
      ELSE spc' = [spc EXCEPT ![p] = "defer"] /\ sres' = [sres EXCEPT ![p] = "nil"]
-  /\ UNCHANGED <<fields, transp, sgen, wg, scur, serr, wvars, kvars, shvars, cvars, hist>>
+  /\ UNCHANGED <<fields, transp, sgen, wg, scur, serr, slsn, wvars, kvars, shvars, cvars, hist>>
   /\ L(<<"SCheck", p, started>>)
 
 SAcceptOk(p) ==                   \* l.Accept() returns a connection
   /\ Mode = "tcp" /\ spc[p] = "accept"
-  /\ lsnOpen[LsnOf[p]] /\ pend[LsnOf[p]] # {}
-  /\ LET c == Min(pend[LsnOf[p]]) IN
-       /\ pend' = [pend EXCEPT ![LsnOf[p]] = @ \ {c}]
+  /\ lsnOpen[slsn[p]] /\ pend[slsn[p]] # {}
+  /\ LET c == Min(pend[slsn[p]]) IN
+       /\ pend' = [pend EXCEPT ![slsn[p]] = @ \ {c}]
        /\ scur' = [scur EXCEPT ![p] = c]
        /\ L(<<"SAcceptOk", p, c>>)
   /\ spc' = [spc EXCEPT ![p] = "got"]
-  /\ UNCHANGED <<fields, lsnOpen, pcOpen, pcDL, pin, sgen, sres, wg, serr, wvars, kvars, shvars, cvars, hist>>
+  /\ UNCHANGED <<fields, lsnOpen, pcOpen, pcDL, pin, sgen, sres, wg, serr, slsn, wvars, kvars, shvars, cvars, hist>>
 
 SAcceptErr(p) ==                  \* l.Accept() fails: the listener is closed
   /\ Mode = "tcp" /\ spc[p] = "accept"
-  /\ ~lsnOpen[LsnOf[p]]
+  /\ ~lsnOpen[slsn[p]]
   /\ spc' = [spc EXCEPT ![p] = "goterr"]
   /\ serr' = [serr EXCEPT ![p] = "closed"]
-  /\ UNCHANGED <<fields, transp, sgen, sres, wg, scur, wvars, kvars, shvars, cvars, hist>>
+  /\ UNCHANGED <<fields, transp, sgen, sres, wg, scur, slsn, wvars, kvars, shvars, cvars, hist>>
   /\ L(<<"SAcceptErr", p>>)
 
 SErrCheck(p) ==                   \* if !srv.isStarted() {return nil}; Temporary() -> continue; return err
@@ -184,7 +184,7 @@ SErrCheck(p) ==                   \* if !srv.isStarted() {return nil}; Temporary
           THEN spc' = [spc EXCEPT ![p] = "top"] /\ UNCHANGED sres
           ELSE spc' = [spc EXCEPT ![p] = "defer"] /\ sres' = [sres EXCEPT ![p] = "err"]
   /\ serr' = [serr EXCEPT ![p] = "-"]
-  /\ UNCHANGED <<fields, transp, sgen, wg, scur, wvars, kvars, shvars, cvars, hist>>
+  /\ UNCHANGED <<fields, transp, sgen, wg, scur, slsn, wvars, kvars, shvars, cvars, hist>>
   /\ L(<<"SErrCheck", p, started>>)
 
 SRegister(p) ==                   \* lock; conns[rw] = {}; unlock; wg.Add(1); go serveTCPConn
@@ -197,7 +197,7 @@ SRegister(p) ==                   \* lock; conns[rw] = {}; unlock; wg.Add(1); go
   /\ wg' = [wg EXCEPT ![p] = @ + 1]
   /\ scur' = [scur EXCEPT ![p] = 0]
   /\ spc' = [spc EXCEPT ![p] = "top"]
-  /\ UNCHANGED <<started, lock, gen, closed, lsnField, transp, sgen, sres, serr, dl, copen, hrep, hclosed, kvars, shvars, cvars, hist>>
+  /\ UNCHANGED <<started, lock, gen, closed, lsnField, transp, sgen, sres, serr, slsn, dl, copen, hrep, hclosed, kvars, shvars, cvars, hist>>
 
 \* broken variant "reg_after_spawn": the worker is spawned first, the connection registered afterwards
 SSpawnFirst(p) ==
@@ -208,20 +208,20 @@ SSpawnFirst(p) ==
        /\ L(<<"SSpawnFirst", p, c>>)
   /\ wg' = [wg EXCEPT ![p] = @ + 1]
   /\ spc' = [spc EXCEPT ![p] = "got2"]
-  /\ UNCHANGED <<fields, transp, sgen, sres, scur, serr, dl, copen, hrep, hclosed, kvars, shvars, cvars, hist>>
+  /\ UNCHANGED <<fields, transp, sgen, sres, scur, serr, slsn, dl, copen, hrep, hclosed, kvars, shvars, cvars, hist>>
 SRegLate(p) ==
   /\ spc[p] = "got2" /\ Free
   /\ conns' = conns \cup {scur[p]}
   /\ scur' = [scur EXCEPT ![p] = 0]
   /\ spc' = [spc EXCEPT ![p] = "top"]
-  /\ UNCHANGED <<started, lock, gen, closed, lsnField, transp, sgen, sres, wg, serr, wvars, kvars, shvars, cvars, hist>>
+  /\ UNCHANGED <<started, lock, gen, closed, lsnField, transp, sgen, sres, wg, serr, slsn, wvars, kvars, shvars, cvars, hist>>
   /\ L(<<"SRegLate", p>>)
 
 SDrain(p) ==                      \* defer: wg.Wait() returns
   /\ spc[p] = "defer"
   /\ (wg[p] = 0 \/ Bug = "close_before_wait")
   /\ spc' = [spc EXCEPT ![p] = "drained"]
-  /\ UNCHANGED <<fields, transp, sgen, sres, wg, scur, serr, wvars, kvars, shvars, cvars, hist>>
+  /\ UNCHANGED <<fields, transp, sgen, sres, wg, scur, serr, slsn, wvars, kvars, shvars, cvars, hist>>
   /\ L(<<"SDrain", p>>)
 
 SCloseChan(p) ==                  \* defer: close(srv.shutdown) -- the field as it is NOW
@@ -233,20 +233,20 @@ SCloseChan(p) ==                  \* defer: close(srv.shutdown) -- the field as 
      ELSE /\ closed' = closed \cup {gen}
           /\ UNCHANGED <<crashed, sres>>
   /\ spc' = [spc EXCEPT ![p] = "closed"]
-  /\ UNCHANGED <<started, lock, gen, conns, lsnField, transp, sgen, wg, scur, serr, wvars, kvars, shvars, cvars, replyLost>>
+  /\ UNCHANGED <<started, lock, gen, conns, lsnField, transp, sgen, wg, scur, serr, slsn, wvars, kvars, shvars, cvars, replyLost>>
   /\ L(<<"SCloseChan", p, gen>>)
 
 SReturn(p) ==                     \* defer l.Close(); deferred unlock() (a no-op: once); the serve call returns
   /\ spc[p] = "closed"
   /\ IF Mode = "tcp"
-     THEN lsnOpen' = [lsnOpen EXCEPT ![LsnOf[p]] = FALSE] /\ UNCHANGED pcOpen
+     THEN lsnOpen' = [lsnOpen EXCEPT ![slsn[p]] = FALSE] /\ UNCHANGED pcOpen
      ELSE pcOpen' = FALSE /\ UNCHANGED lsnOpen
   /\ IF Bug = "plain_unlock"         \* srv.lock.Unlock() a second time
      THEN IF lock = NoLock THEN crashed' = "unlock of unlocked mutex" /\ UNCHANGED lock
                       ELSE lock' = NoLock /\ UNCHANGED crashed
      ELSE UNCHANGED <<lock, crashed>>
   /\ spc' = [spc EXCEPT ![p] = "returned"]
-  /\ UNCHANGED <<started, gen, closed, conns, lsnField, pend, pcDL, pin, sgen, sres, wg, scur, serr, wvars, kvars, shvars, cvars, replyLost>>
+  /\ UNCHANGED <<started, gen, closed, conns, lsnField, pend, pcDL, pin, sgen, sres, wg, scur, serr, slsn, wvars, kvars, shvars, cvars, replyLost>>
   /\ L(<<"SReturn", p, sres[p]>>)
 
 \* ---- PacketConn / UDP serve loop
@@ -254,7 +254,7 @@ URdl(p) ==                        \* readPacketConn/readUDP: RLock; if started {
   /\ Mode = "pc" /\ spc[p] = "rdl" /\ Free
   /\ pcDL' = IF started \/ Bug = "dl_nocheck" THEN "future" ELSE pcDL
   /\ spc' = [spc EXCEPT ![p] = "read"]
-  /\ UNCHANGED <<fields, lsnOpen, pend, pcOpen, pin, sgen, sres, wg, scur, serr, wvars, kvars, shvars, cvars, hist>>
+  /\ UNCHANGED <<fields, lsnOpen, pend, pcOpen, pin, sgen, sres, wg, scur, serr, slsn, wvars, kvars, shvars, cvars, hist>>
   /\ L(<<"URdl", p, started>>)
 
 UReadOk(p) ==                     \* ReadFrom returns a packet
@@ -264,7 +264,7 @@ UReadOk(p) ==                     \* ReadFrom returns a packet
   /\ nread' = nread + 1
   /\ scur' = [scur EXCEPT ![p] = nread + 1]
   /\ spc' = [spc EXCEPT ![p] = "got"]
-  /\ UNCHANGED <<fields, lsnOpen, pend, pcOpen, pcDL, sgen, sres, wg, serr, wvars, kpc, kown, shvars, cvars, hist>>
+  /\ UNCHANGED <<fields, lsnOpen, pend, pcOpen, pcDL, sgen, sres, wg, serr, slsn, wvars, kpc, kown, shvars, cvars, hist>>
   /\ L(<<"UReadOk", p, nread + 1>>)
 
 UReadErr(p) ==                    \* ReadFrom fails: deadline in the past (Temporary) or conn closed
@@ -272,7 +272,7 @@ UReadErr(p) ==                    \* ReadFrom fails: deadline in the past (Tempo
   /\ \/ ~pcOpen /\ serr' = [serr EXCEPT ![p] = "closed"]
      \/ pcOpen /\ pcDL = "past" /\ serr' = [serr EXCEPT ![p] = "timeout"]
   /\ spc' = [spc EXCEPT ![p] = "goterr"]
-  /\ UNCHANGED <<fields, transp, sgen, sres, wg, scur, wvars, kvars, shvars, cvars, hist>>
+  /\ UNCHANGED <<fields, transp, sgen, sres, wg, scur, slsn, wvars, kvars, shvars, cvars, hist>>
   /\ L(<<"UReadErr", p, serr'[p]>>)
 
 USpawn(p) ==                      \* wg.Add(1); go serveUDPPacket
@@ -284,7 +284,7 @@ USpawn(p) ==                      \* wg.Add(1); go serveUDPPacket
   /\ wg' = [wg EXCEPT ![p] = @ + 1]
   /\ scur' = [scur EXCEPT ![p] = 0]
   /\ spc' = [spc EXCEPT ![p] = "top"]
-  /\ UNCHANGED <<fields, transp, sgen, sres, serr, wvars, nread, shvars, cvars, hist>>
+  /\ UNCHANGED <<fields, transp, sgen, sres, serr, slsn, wvars, nread, shvars, cvars, hist>>
 
 -----------------------------------------------------------------------------
 (* Connection worker: serveTCPConn 561-613, readTCP 686-708                  *)
@@ -367,7 +367,7 @@ WUnreg(c) ==                      \* lock; delete(srv.conns, rw) -- the CURRENT 
   /\ conns' = conns \ {c}
   /\ wg' = [wg EXCEPT ![wown[c]] = @ - 1]
   /\ wpc' = [wpc EXCEPT ![c] = "done"]
-  /\ UNCHANGED <<started, lock, gen, closed, lsnField, transp, spc, sgen, sres, scur, serr, wown, dl, copen, hrep, hclosed, kvars, shvars, cvars, hist>>
+  /\ UNCHANGED <<started, lock, gen, closed, lsnField, transp, spc, sgen, sres, scur, serr, slsn, wown, dl, copen, hrep, hclosed, kvars, shvars, cvars, hist>>
   /\ L(<<"WUnreg", c>>)
 
 WExit(c) ==                       \* the goroutine is gone
@@ -402,7 +402,7 @@ KExit(k) ==                       \* handler returns; wg.Done()
   /\ kpc[k] = "replied"
   /\ kpc' = [kpc EXCEPT ![k] = "done"]
   /\ wg' = [wg EXCEPT ![kown[k]] = @ - 1]
-  /\ UNCHANGED <<fields, transp, spc, sgen, sres, scur, serr, wvars, kown, nread, shvars, cvars, hist>>
+  /\ UNCHANGED <<fields, transp, spc, sgen, sres, scur, serr, slsn, wvars, kown, nread, shvars, cvars, hist>>
   /\ L(<<"KExit", k>>)
 
 KGone(k) ==
@@ -414,17 +414,20 @@ KGone(k) ==
 -----------------------------------------------------------------------------
 (* ShutdownContext 411-450                                                   *)
 
+InLoop(p) == spc[p] \in {"top", "accept", "rdl", "read", "got", "got2", "goterr"}
+
 ShBegin(h) ==                     \* Lock; if !started {Unlock; return err}; started = false
   /\ shpc[h] = "idle" /\ Free
-  /\ IF ~started
+  /\ IF ~started /\ Bug # "no_shut_check"
      THEN /\ shpc' = [shpc EXCEPT ![h] = "returned"]
           /\ shres' = [shres EXCEPT ![h] = "notstarted"]
-          /\ UNCHANGED <<started, lock, shgen, kick>>
+          /\ UNCHANGED <<started, lock, shgen, kick, shseen>>
           /\ L(<<"ShRefused", h>>)
      ELSE /\ started' = FALSE
           /\ lock' = <<"h", h>>
           /\ shgen' = [shgen EXCEPT ![h] = gen]
           /\ kick' = [kick EXCEPT ![h] = conns]
+          /\ shseen' = [shseen EXCEPT ![h] = { p \in P : sgen[p] = gen /\ InLoop(p) }]   \* history: the serve calls this shutdown stops
           /\ shpc' = [shpc EXCEPT ![h] = "closing"]
           /\ UNCHANGED shres
           /\ L(<<"ShBegin", h>>)
@@ -439,7 +442,7 @@ ShCloseL(h) ==                    \* PacketConn.SetReadDeadline(aLongTimeAgo) / 
      ELSE /\ pcDL' = IF Bug # "no_listener_close" THEN "past" ELSE pcDL
           /\ UNCHANGED lsnOpen
   /\ shpc' = [shpc EXCEPT ![h] = "kick"]
-  /\ UNCHANGED <<fields, pend, pcOpen, pin, svars, wvars, kvars, shres, shgen, capt, kick, cvars, hist>>
+  /\ UNCHANGED <<fields, pend, pcOpen, pin, svars, wvars, kvars, shres, shgen, capt, kick, shseen, cvars, hist>>
   /\ L(<<"ShCloseL", h>>)
 
 ShKick(h, c) ==                   \* for rw := range srv.conns {rw.SetReadDeadline(aLongTimeAgo)}, lock held
@@ -448,42 +451,42 @@ ShKick(h, c) ==                   \* for rw := range srv.conns {rw.SetReadDeadli
   /\ IF Bug = "sh_closes_conns"
      THEN copen' = [copen EXCEPT ![c] = FALSE] /\ UNCHANGED dl
      ELSE dl' = [dl EXCEPT ![c] = "past"] /\ UNCHANGED copen
-  /\ UNCHANGED <<fields, transp, svars, wpc, wown, hrep, hclosed, kvars, shpc, shres, shgen, capt, cvars, hist>>
+  /\ UNCHANGED <<fields, transp, svars, wpc, wown, hrep, hclosed, kvars, shpc, shres, shgen, capt, shseen, cvars, hist>>
   /\ L(<<"ShKick", h, c>>)
 
 ShUnlock(h) ==
   /\ shpc[h] = "kick" /\ kick[h] = {}
   /\ lock' = NoLock
   /\ shpc' = [shpc EXCEPT ![h] = "select"]
-  /\ UNCHANGED <<started, gen, closed, conns, lsnField, transp, svars, wvars, kvars, shres, shgen, capt, kick, cvars, hist>>
+  /\ UNCHANGED <<started, gen, closed, conns, lsnField, transp, svars, wvars, kvars, shres, shgen, capt, kick, shseen, cvars, hist>>
   /\ L(<<"ShUnlock", h>>)
 
 ShCapture(h) ==                   \* select evaluates srv.shutdown: the field as it is NOW
   /\ shpc[h] = "select"
   /\ capt' = [capt EXCEPT ![h] = gen]
   /\ shpc' = [shpc EXCEPT ![h] = "wait"]
-  /\ UNCHANGED <<fields, transp, svars, wvars, kvars, shres, shgen, kick, cvars, hist>>
+  /\ UNCHANGED <<fields, transp, svars, wvars, kvars, shres, shgen, kick, shseen, cvars, hist>>
   /\ L(<<"ShCapture", h, gen>>)
 
 ShWake(h) ==                      \* case <-srv.shutdown
   /\ shpc[h] = "wait" /\ capt[h] \in closed
   /\ shres' = [shres EXCEPT ![h] = "ok"]
   /\ shpc' = [shpc EXCEPT ![h] = IF Mode = "tcp" THEN "returned" ELSE "after"]
-  /\ UNCHANGED <<fields, transp, svars, wvars, kvars, shgen, capt, kick, cvars, hist>>
+  /\ UNCHANGED <<fields, transp, svars, wvars, kvars, shgen, capt, kick, shseen, cvars, hist>>
   /\ L(<<"ShWake", h>>)
 
 ShCtx(h) ==                       \* case <-ctx.Done()
   /\ CtxMayExpire /\ shpc[h] = "wait"
   /\ shres' = [shres EXCEPT ![h] = "ctx"]
   /\ shpc' = [shpc EXCEPT ![h] = IF Mode = "tcp" THEN "returned" ELSE "after"]
-  /\ UNCHANGED <<fields, transp, svars, wvars, kvars, shgen, capt, kick, cvars, hist>>
+  /\ UNCHANGED <<fields, transp, svars, wvars, kvars, shgen, capt, kick, shseen, cvars, hist>>
   /\ L(<<"ShCtx", h>>)
 
 ShClosePC(h) ==                   \* srv.PacketConn.Close()
   /\ Mode = "pc" /\ shpc[h] = "after"
   /\ pcOpen' = FALSE
   /\ shpc' = [shpc EXCEPT ![h] = "returned"]
-  /\ UNCHANGED <<fields, lsnOpen, pend, pcDL, pin, svars, wvars, kvars, shres, shgen, capt, kick, cvars, hist>>
+  /\ UNCHANGED <<fields, lsnOpen, pend, pcDL, pin, svars, wvars, kvars, shres, shgen, capt, kick, shseen, cvars, hist>>
   /\ L(<<"ShClosePC", h>>)
 
 -----------------------------------------------------------------------------
@@ -517,6 +520,16 @@ CSendPkt ==
   /\ UNCHANGED <<fields, lsnOpen, pend, pcOpen, pcDL, svars, wvars, kvars, shvars, cst, csent, inbox, hist>>
   /\ L(<<"CSendPkt", psent + 1>>)
 
+HSetListener(l) ==                \* the harness assigns a fresh listener to srv.Listener (DEV3: only while not started,
+  /\ Mode = "tcp" /\ l \in Lsn /\ l = lsnField + 1      \* and while no call is inside its critical section)
+  /\ ~started /\ Free
+  /\ (SeqRestart => /\ \A q \in P : spc[q] \in {"idle", "returned"}
+                    /\ \A h \in H : shpc[h] \in {"idle", "returned"})
+  /\ gen > 0
+  /\ lsnField' = l
+  /\ UNCHANGED <<started, lock, gen, closed, conns, transp, svars, wvars, kvars, shvars, cvars, hist>>
+  /\ L(<<"HSetListener", l>>)
+
 -----------------------------------------------------------------------------
 StarterStep(p) == StLock(p) \/ StBody(p) \/ StErrReturn(p)
 ServeStep(p)   == \/ SCheck(p) \/ SAcceptOk(p) \/ SAcceptErr(p) \/ SErrCheck(p) \/ SRegister(p)
@@ -530,6 +543,7 @@ WorkerFair(c)  == \/ WStart(c) \/ WLoop(c) \/ WSetDeadline(c) \/ WReadOk(c) \/ W
 PacketStep(k)  == KStart(k) \/ KEnter(k) \/ KReply(k) \/ KExit(k) \/ KGone(k)
 ShutStep(h)    == ShBegin(h) \/ ShCloseL(h) \/ (\E c \in C : ShKick(h, c)) \/ ShUnlock(h) \/ ShCapture(h) \/ ShWake(h) \/ ShClosePC(h)
 ClientStep     == (\E c \in C : (\E l \in Lsn : CConnect(c, l)) \/ CSend(c) \/ CClose(c)) \/ CSendPkt
+                  \/ (\E l \in Lsn : HSetListener(l))
 
 Next == \/ \E p \in P : StarterStep(p) \/ ServeStep(p)
         \/ \E c \in C : WorkerStep(c)
@@ -588,10 +602,9 @@ NoHandlerStartAfterShutdownReturned ==
 \*  under a running handler -- the statement's "unless ctx expired".)
 RepliesDelivered == replyLost => \E h \in H : shres[h] = "ctx"
 
-\* The blocked serve call returns nil after a shutdown of its generation.
+\* The serve call that a shutdown found in its loop returns nil.
 ServeReturnsNil ==
-  \A p \in P : spc[p] = "returned" /\ sres[p] # "already" /\ (\E h \in H : shgen[h] = sgen[p] /\ shpc[h] # "idle")
-                 => sres[p] = "nil"
+  \A h \in H : \A p \in shseen[h] : spc[p] = "returned" => sres[p] = "nil"
 
 \* Starting a started server is refused under the lock and returns (pc "err" -> "returned").
 StartTwiceErrors ==
